@@ -100,6 +100,7 @@ func main() {
 	hooksrc := flag.String("hooksrc", "overlay_src/zzsimhook", "zzsimhook source dir")
 	doFS := flag.Bool("fs", false, "rewrite storage/fsstore os calls")
 	yield := flag.String("yield", "", "comma-separated package dirs (relative to repo) to receive function-entry yields")
+	coop := flag.String("coop", "", "comma-separated package dirs whose sync.Mutex / RWMutex / Once become cooperative (no yields inserted)")
 	detmaps := flag.String("detmaps", "", "GOROOT whose runtime is overlaid so that Go map iteration order and hashing are the same in every process (replay determinism of the C20 child)")
 	flag.Parse()
 
@@ -131,9 +132,20 @@ func main() {
 			yieldDirs[filepath.Clean(d)] = true
 		}
 	}
+	coopDirs := map[string]bool{}
+	for _, d := range strings.Split(*coop, ",") {
+		if d = strings.TrimSpace(d); d != "" {
+			coopDirs[filepath.Clean(d)] = true
+		}
+	}
 	dirs := map[string]bool{}
 	for d := range yieldDirs {
 		dirs[d] = true
+	}
+	for d := range coopDirs {
+		if _, err := os.Stat(filepath.Join(absRepo, d)); err == nil {
+			dirs[d] = true
+		}
 	}
 	if *doFS {
 		dirs["storage/fsstore"] = true
@@ -148,6 +160,9 @@ func main() {
 	for _, d := range dirList {
 		files := goFiles(filepath.Join(absRepo, d))
 		if len(files) == 0 {
+			if coopDirs[d] && !yieldDirs[d] {
+				continue
+			}
 			die("no go files in %s (package moved? extend the harness)", d)
 		}
 		for _, path := range files {
@@ -221,7 +236,7 @@ func main() {
 				}
 				edits = append(edits, edit{len(src), 0, tail})
 			}
-			if yieldDirs[d] || (*doFS && d == "storage/fsstore") {
+			if yieldDirs[d] || coopDirs[d] || (*doFS && d == "storage/fsstore") {
 				// blocking primitives become cooperative ones (see zzsimhook: a task that really blocked
 				// on a lock held by a parked task would stop the simulation)
 				if syncN := importName(f, "sync", "sync"); syncN != "" && syncN != "_" {
@@ -240,7 +255,10 @@ func main() {
 							edits = append(edits, edit{off(id.Pos()), len(id.Name), "zzsimhook"})
 							nSync++
 						case "Cond", "NewCond", "WaitGroup":
-							die("%s uses sync.%s: the simulator has no cooperative version yet (extend zzsimhook)", path, se.Sel.Name)
+							if yieldDirs[d] {
+								die("%s uses sync.%s: the simulator has no cooperative version yet (extend zzsimhook)", path, se.Sel.Name)
+							}
+							usedSync = true
 						default:
 							usedSync = true
 						}
